@@ -76,7 +76,12 @@ struct Digit {
         QNumberType_T qn{number};
 
         if QENTEM_CONST_EXPRESSION (IsFloat<Number_T>()) {
-            realToString<Number_T>(stream, QNumberType_T{number}.Natural, format);
+            if ((format.Precision == 0U) && (format.Type == RealFormatType::Default)) {
+                // As with %g: a precision of zero means one significant digit.
+                realToString<Number_T>(stream, QNumberType_T{number}.Natural, RealFormatInfo{1U, format.Type});
+            } else {
+                realToString<Number_T>(stream, QNumberType_T{number}.Natural, format);
+            }
         } else {
             constexpr SizeT32 max_number_of_digits = (((n_size * 8U * 30103U) / 100000) + 1U);
             Char_T            storage[max_number_of_digits];
